@@ -2,8 +2,10 @@
 FUNCTIONS = ['socket.Socket._websocket_handler', 'socket.Socket._upgrade_websocket',
              'socket.Socket.handle_get_request']
 FUNCTIONS += ['server.Server.handle_request', 'server.Server._handle_connect']
+FUNCTIONS += ['async_socket.AsyncSocket._websocket_handler', 'async_socket.AsyncSocket._upgrade_websocket',
+              'async_socket.AsyncSocket.handle_get_request']
 
-LEVEL_TEXT = "_websocket_handler / _upgrade_websocket / handle_get_request (threaded) are verified over a ghost frame log: the session is upgraded only if the new frames start with in PING 'probe', out PONG 'probe', in UPGRADE; every other outcome (wrong frame, oversize, undecodable, driver error, closure) leaves upgrading reset, nothing taken from the queue, queue content preserved, no event; an upgraded session refuses another upgrade with OSError and no effect; a WebSocket open is in WebSocket mode at once"
+LEVEL_TEXT = "_websocket_handler / _upgrade_websocket / handle_get_request (threaded and asyncio sockets) are verified over a ghost frame log: the session is upgraded only if the new frames start with in PING 'probe', out PONG 'probe', in UPGRADE; every other outcome (wrong frame, oversize, undecodable, driver error, closure) leaves upgrading reset, nothing taken from the queue, queue content preserved, no event; an upgraded session refuses another upgrade with OSError and no effect; a WebSocket open is in WebSocket mode at once"
 LEVEL_NOTE = 'WebSocket driver wrapper contract (calls the handler once; wait/send may raise); one upgrade socket per session at a time (precondition); socket time-out tuning on driver internals is an abstract region; asyncio twin verified by the same contracts where listed'
 NOT_DECIDED = ['two simultaneous upgrade sockets for one session', 'the transports gate is part of handle_request (thorough tier)']
 ASSUMPTIONS = [LEVEL_NOTE]
